@@ -18,6 +18,12 @@ Theorem source_tables :
   /\ gen_lit_mass_from_energy_momentum_intlist1 = massless_pdg.
 Proof. repeat split; reflexivity. Qed.
 
+(* constants of the length check that the hand model takes from the regenerated tables and that no other theorem pins:
+   the formats whose lines may be up to two columns short (pinned values: the source at the time the tie was built) *)
+Theorem source_constants :
+  gen_relaxed_formats = ["Oscar2013Extended"; "Oscar2013Extended_IC"] /\ gen_relax_slack = 2%nat.
+Proof. split; reflexivity. Qed.
+
 (* ---- facts about the regenerated tables, decided by evaluation ---------------------------------------------- *)
 (* an entry writes inside the array, and the PDG slot is filled through int() *)
 Definition entry_ok (ascii : bool) (e : string * (nat * nat)) : bool :=
